@@ -52,7 +52,7 @@ func jsWrite(f *ast.SoyFileNode, es6 bool) (string, error) {
 
 var jsFiles = [][]string{
 	// 0: several calls, a directive and a function -> 5 ES6 imports
-	{"{namespace a.b}\n/** @param x */\n{template .t}\n{call .u data=\"all\"/}{call c.v}{param p: $x/}{/call}{call c.w/}{call c.y/}{$x|truncate:3}{round($x)}\n{/template}\n" +
+	{"{namespace a.b}\n/** @param x */\n{template .t}\n{call .u data=\"all\"/}{call c.v}{param p: $x/}{/call}{call c.w/}{call c.y/}{$x|truncate:3}{round($x)}{$x|id|escapeUri}{$x|noAutoescape|truncate:2}{$x|escapeHtml|id}{$x|id}\n{/template}\n" +
 		"/** @param x */\n{template .u}\n{$x}\n{/template}\n",
 		"{namespace c}\n/** @param? p */\n{template .v}\n{$p}\n{/template}\n/** */\n{template .w}\nw\n{/template}\n/** */\n{template .y}\ny\n{/template}\n"},
 	// 1: map literals and global maps/lists
